@@ -4,8 +4,9 @@
     ([Val]/[Panic] = returns / traps); the specification is Spec/Rfc2822.v. *)
 From Coq Require Import ZArith List Bool String.
 From V Require Model.Date Model.Time.
-From V Require Import Base.Int Base.IO Base.Utf8 Model.Scan Model.DateTime Model.C11 Spec.Rfc2822
-  Proofs.Utf8 Proofs.Scan Proofs.C11.
+From V Require Model.Parsed.
+From V Require Import Base.Int Base.IO Base.Utf8 Model.Scan Model.DateTime Model.C11 Spec.Rfc2822 Judge.C11
+  Proofs.Utf8 Proofs.Scan Proofs.C11 Proofs.C11Scan Proofs.C11Resolve Proofs.C11Reader.
 Import ListNotations.
 Open Scope Z_scope.
 
@@ -41,3 +42,57 @@ Theorem C11_writer_year_panic : forall a naive, overflowing_naive_local a = Val 
   ~ (0 <= Date.d_year (nd_date naive) <= 9999) -> to_rfc2822 a = Panic.
 Proof. exact to_rfc2822_panics. Qed.
 Print Assumptions C11_writer_year_panic.
+
+(* reader_complete, scanning half: a string of the generator grammar (Spec/Rfc2822.v [recognise]:
+   optional day of week, 1-2 digit day, month name, 2/3/4+ digit year, hh:mm[:ss] with white space
+   allowed around the colons, numeric / named / military zone, trailing comments, folding white
+   space between the tokens, any letter case) with valid fields is scanned completely, without a
+   trap, and sets exactly the fields of the specification (year by the RFC 2822 year-length rule) *)
+Theorem C11_reader_scan_complete : forall s f, utf8_valid s = true -> blen s <= u64_max ->
+  recognise s = Some f -> valid f = true -> Spec.Gregorian.year_in_range (year_of f) = true ->
+  parse_items_rfc2822 Parsed.parsed_new s = Val (POk (parsed_of f)).
+Proof. exact scan_complete. Qed.
+Print Assumptions C11_reader_scan_complete.
+
+(* reader_complete: ... and the result of DateTime::parse_from_rfc2822 is exactly the denoted value
+   (UTC reading, leap-second representation for :60, offset), printed in the case protocol *)
+Theorem C11_reader_complete : forall s f, utf8_valid s = true -> blen s <= u64_max ->
+  recognise s = Some f -> valid f = true -> weekday_ok f = true -> representable f = true ->
+  r2_parse s = enc5 (denote f).
+Proof. exact reader_complete. Qed.
+Print Assumptions C11_reader_complete.
+Example C11_reader_complete_inhabited :
+  let s := B"Thu,  13 feb 69 23:32 : 60  -0330 (Newfoundland \(Time\))" in
+  utf8_valid s = true /\ (exists f, recognise s = Some f /\ valid f = true /\ weekday_ok f = true /\ representable f = true)
+  /\ r2_parse s = VTup [VInt 1969; VInt 45; VInt 10979; VInt 1000000000; VInt (-12600)].
+Proof.
+  cbv zeta. split; [vm_compute; reflexivity|]. split; [|vm_compute; reflexivity].
+  exists (mk_fields (Some 3) 13 2 2 69 23 32 (Some 60) (ZNum true 3 30)).
+  repeat split; vm_compute; reflexivity.
+Qed.
+Print Assumptions C11_reader_complete_inhabited.
+
+(* weekday_contradiction_rejected: a day of week that is not the day of week of the date is refused *)
+Theorem C11_weekday_contradiction_rejected : forall s f, utf8_valid s = true -> blen s <= u64_max ->
+  recognise s = Some f -> valid f = true -> weekday_ok f = false -> representable f = true ->
+  r2_parse s = VErr (perr_name Impossible).
+Proof. exact weekday_contradiction_rejected. Qed.
+Print Assumptions C11_weekday_contradiction_rejected.
+Example C11_weekday_contradiction_inhabited :
+  r2_parse (B"Fri, 13 Feb 1969 23:32:54 -0330") = VErr (perr_name Impossible).
+Proof. vm_compute. reflexivity. Qed.
+Print Assumptions C11_weekday_contradiction_inhabited.
+
+(* the judge of the check and the theorems say the same: on every string of the grammar with valid,
+   representable fields the judge accepts the model's output *)
+Theorem C11_judge_accepts_reader : forall s f, utf8_valid s = true -> blen s <= u64_max ->
+  recognise s = Some f -> valid f = true -> representable f = true ->
+  judge_parse s (r2_parse s) = JOk.
+Proof. exact judge_accepts_reader. Qed.
+Print Assumptions C11_judge_accepts_reader.
+
+(* the executable comment recogniser of the specification is the relation [ccontent] *)
+Theorem C11_spec_comment_exact : forall s rest,
+  comment_rest s = Some rest <-> exists a, ccontent a /\ s = 40 :: a ++ 41 :: rest.
+Proof. exact comment_rest_exact. Qed.
+Print Assumptions C11_spec_comment_exact.
